@@ -1,2 +1,2 @@
-# KN1 (apply to <doc/>)
+# KN1 repaired by a fix: commit - regression case, must pass (apply to <doc/>)
 <xsl:stylesheet version="1.0" xmlns:xsl="http://www.w3.org/1999/XSL/Transform"><xsl:template match="/"><p:a xmlns:p="u4"><p:b xmlns:p="u5"><xsl:attribute name="x" namespace="u4">u4</xsl:attribute></p:b></p:a></xsl:template></xsl:stylesheet>
